@@ -423,3 +423,85 @@ func rGenerating(c *Ctx, plugins ...string) {
 		}
 	}
 }
+
+// rUnsupportedKinds (C09): in the structural plugins a value whose dynamic kind is none of the kinds a type switch lists
+// (chan, func, interface, tuple, …) must end in a generator error (or be rejected by Add) — never in an accepted run,
+// which would be an exit-0 with a half-emitted or wrong function.
+func rUnsupportedKinds(c *Ctx, plugins ...string) {
+	for _, p := range plugins {
+		n := 0
+		for _, r := range c.R.Runs(p) {
+			other := ""
+			for _, d := range r.Decisions {
+				if strings.HasPrefix(d.Sym, "K:") && d.Choice == d.N-1 && strings.Contains(d.Sym, "Underlying()") {
+					other = d.Sym
+				}
+			}
+			if other == "" {
+				continue
+			}
+			n++
+			if r.Outcome == "accepted" {
+				c.Rep.fail(Finding{Rule: "R-unsupported", Key: fmt.Sprintf("R-unsupported|%s|%s", p, shortSym(strings.SplitN(other, ":", 3)[2])), Plugin: p, Script: r.Script,
+					Msg:    fmt.Sprintf("plugin %s accepts a value whose kind is none of %s (e.g. chan, func, interface): it must be reported as unsupported, not silently skipped or half-emitted", p, strings.SplitN(other, ":", 3)[2]),
+					Detail: "abstract path: " + r.describe() + "\nresidual:\n" + r.excerpt(40)})
+			} else {
+				c.Rep.pass("R-unsupported")
+			}
+		}
+		c.Rep.analysed("unsupported_kind_runs:"+p, n)
+	}
+}
+
+// helperArity: the number of arguments a residual passes to a helper obtained from GetFuncName matches the documented
+// shape of that plugin's function for the number of types it was requested with (a curried equal/compare is requested with
+// one type and called with one argument; the binary form with two and two; deepcopy with one type and (dst, src); …).
+var helperCallArgs = map[string]map[int]int{
+	"equal": {1: 1, 2: 2}, "compare": {1: 1, 2: 2}, "hash": {1: 1}, "deepcopy": {1: 2}, "clone": {1: 1}, "keys": {1: 1}, "sort": {1: 1},
+	"set": {1: 1}, "contains": {2: 2}, "min": {2: 2}, "max": {2: 2}, "gostring": {1: 1}, "unique": {1: 1},
+}
+
+func rHelperArity(c *Ctx, plugins ...string) {
+	for _, p := range plugins {
+		for _, rs := range c.acceptedResids(p) {
+			if rs.Err != nil {
+				continue
+			}
+			ok := true
+			self := map[string]bool{}
+			for _, fd := range rs.Funcs {
+				self[fd.Name.Name] = true
+			}
+			ast.Inspect(rs.File, func(n ast.Node) bool {
+				call, isCall := n.(*ast.CallExpr)
+				if !isCall {
+					return true
+				}
+				id, isId := call.Fun.(*ast.Ident)
+				if !isId {
+					return true
+				}
+				h := rs.hole(id.Name)
+				if h == nil || h.Kind != "FUNC" {
+					return true
+				}
+				who := funcHoleWho(rs, id)
+				want, known := helperCallArgs[who][len(h.Args)]
+				if !known {
+					return true
+				}
+				if len(call.Args) != want {
+					ok = false
+					gf := c.Repo.funcAt(rs.Run.LinePos[rs.line(call.Pos())-1])
+					c.Rep.fail(Finding{Rule: "R-helper", Key: fmt.Sprintf("R-helper|%s|%s|%s requested with %d types called with %d args", p, gf, who, len(h.Args), len(call.Args)), Where: []string{rs.where(c.Repo, call)}, Plugin: p, Script: rs.Run.Script,
+						Msg:    fmt.Sprintf("plugin %s requests a %s function for %d type(s) and calls it with %d argument(s); that form of %s takes %d: the helper that is generated does not accept the call", p, who, len(h.Args), len(call.Args), who, want),
+						Detail: "residual:\n" + rs.Run.excerpt(40)})
+				}
+				return true
+			})
+			if ok {
+				c.Rep.pass("R-helper")
+			}
+		}
+	}
+}
